@@ -78,3 +78,14 @@ for fk, fl in FLAGSETS.items():
     cfg("MC_sched_mq_%s.cfg" % fk, sched_consts(FieldAlpha="<- AlphaSchedM2", OpTypes='= {"mutation"}', Aliases='= {"", "z"}', Conds='= {"Mutation"}', MaxFrags="= 1", MaxSel="= 4", WithFaults="= FALSE", **fl), SCHED_INV, spec="SpecS")
     cfg("MC_sched_mz_%s.cfg" % fk, sched_consts(FieldAlpha="<- AlphaSchedM", OpTypes='= {"mutation"}', Aliases='= {"", "z"}', MaxSel="= 3", WithFaults="= TRUE", **fl), SCHED_INV, spec="SpecS")
 cfg("MC_sched_live.cfg", sched_consts(FieldAlpha="<- AlphaSchedF", Aliases='= {""}', MaxSel="= 3", WithFaults="= TRUE", SeqFields="<- SomeFieldNames", LConc="= FALSE"), SCHED_R1, spec="FairSpecS", props=["Termination"], extra="VIEW NoHist")
+
+# ---- C15: several requests in flight ------------------------------------------------------
+MULTI_INV = ["R1_Multi", "EmitM"]
+def multi_consts(**kw):
+    d = fault_consts(SeqFields="= {}", LConc="= TRUE", NReq="= 2", OverlayKinds="<- OKinds")
+    d.update(kw)
+    return d
+cfg("MC_multi_vars.cfg", multi_consts(FieldAlpha="<- AlphaMultiV", ArgOpts="<- ArgOptsMulti", DirOpts="<- DirsVarOnly", Aliases='= {""}', MaxSel="= 2", VarVals="<- VarValsSmall", OverlayKinds="= {}"), MULTI_INV, spec="SpecM")
+cfg("MC_multi_ops.cfg", multi_consts(FieldAlpha="<- AlphaMultiO", MaxOps="= 2", Aliases='= {""}', MaxSel="= 3", OverlayKinds="<- OKindsRaise"), MULTI_INV, spec="SpecM")
+cfg("MC_multi_faults.cfg", multi_consts(FieldAlpha="<- AlphaMultiF", Aliases='= {""}', MaxSel="= 2", SeqFields="<- SomeFieldNames", LConc="= FALSE"), MULTI_INV, spec="SpecM")
+cfg("MC_multi_three.cfg", multi_consts(FieldAlpha="<- AlphaMultiT", Aliases='= {""}', MaxSel="= 1", NReq="= 3"), MULTI_INV, spec="SpecM")
